@@ -31,6 +31,7 @@ class Spec:
         self.assumed = assumed  # assumed contracts are applied at call sites but never verified (listed in trusted base)
         self.note = note
         self.inline = inline  # verified against its contract, but callers inline the body (more precise for leaf codecs)
+        self.label = target  # name used in obligation names (variants: target#variant)
 
 
 class Registry:
@@ -51,6 +52,17 @@ class Registry:
     def contract(self, target, props=(), assumed=False, note="", inline=False):
         def deco(fn):
             self.contracts[target] = Spec(target, fn, props, assumed, note, inline)
+            return fn
+
+        return deco
+
+    def variant(self, target, variant, props=(), note=""):
+        """A further contract on the same function for another class of inputs (verified, never applied at call sites)."""
+
+        def deco(fn):
+            s = Spec(target, fn, props, False, note, True)
+            s.label = f"{target}#{variant}"
+            self.contracts[s.label] = s
             return fn
 
         return deco
